@@ -430,7 +430,7 @@ def copy_vs_original(scn):
 
 # ------------------------------------------------------------------ C17 a rejected call changes nothing
 
-BAD_PROFILE = {"name": "C17", "lp": ALL_LP, "np": [None, None] + G.NP_KINDS,
+BAD_PROFILE = {"name": "C17", "allow_scale": True, "lp": ALL_LP, "np": [None, None] + G.NP_KINDS,
                "weights": {"fit": 1, "pfit": 3, "query": 3, "add": 1, "rem": 0.7, "warm": 0.5, "bad": 3},
                "n_ops": (3, 9)}
 
@@ -667,7 +667,7 @@ def fit_task_orders(scn):
 
 # ------------------------------------------------------------------ C13 warm start laws
 
-WARM_PROFILE = {"name": "C13", "lp": list(G.WARM_OK), "np": [None], "n_arms": [2, 3, 4, 5, 5],
+WARM_PROFILE = {"name": "C13", "allow_scale": True, "lp": list(G.WARM_OK), "np": [None], "n_arms": [2, 3, 4, 5, 5],
                 "weights": {"fit": 1, "pfit": 3, "query": 2, "add": 2.5, "rem": 0.7, "warm": 3}, "n_ops": (4, 11)}
 
 
